@@ -128,7 +128,7 @@ def r4(ctx: Context) -> None:
     ctx.rule("R4", "generate_trigger_run_ids hashes only self.trigger_id and valid-condition ids (sorted before joining in the AND branch), nothing non-deterministic; the trigger id hashes task id, sorted condition ids and logic")
     td = ctx.repo.cls("TriggerDefinition")
     f = td.methods.get("generate_trigger_run_ids")
-    gid = td.methods.get("_generate_trigger_id")
+    gid = td.methods.get("_generate_trigger_id") or td.methods.get("__init__")  # (a single-use helper is inlined by the loader)
     if f is None or gid is None:
         raise AnalysisError("anchor-vanished: TriggerDefinition id generation")
     ups = [c for c in calls_in(f.node) if call_name(c) == "update"]
